@@ -170,9 +170,19 @@ def r13_3(ctx):
                 return n
         return src(Inl().visit(copy.deepcopy(expr)))
     a = inlined(key[0].value, cv.node, key[0].lineno).replace('on_demand', 'X')
-    b = inlined(k2[0].value, seed.node, k2[0].lineno).replace('False', 'X') if k2 else ''
-    ctx.decide('R13.3', seed.qual, 'seeding key %s' % (src(k2[0].value) if k2 else '?'), a == b, k2[0] if k2 else seed.node,
-               'same key constructor as the lookup, with on_demand=False (shipped assemblers are not on-demand)')
+    # the key under which the seeding function stores: the subscript of its store into the cache, read through locals
+    from sa import resolve as _resolve
+    st2 = [s_ for s_ in own_nodes(seed.node) if isinstance(s_, ast.Assign) and isinstance(s_.targets[0], ast.Subscript)
+           and src(s_.targets[0].value) == '__vform_asm_cache']
+    if st2:
+        kexpr = _resolve.expand(st2[0].targets[0].slice, st2[0])
+        b = src(kexpr).replace('False', 'X')
+        form_param = seed.node.args.args[0].arg if seed.node.args.args else 'vf'
+        b = b.replace(form_param + '.hash()', 'vf.hash()')
+        ctx.decide('R13.3', seed.qual, 'seeding key %s' % src(kexpr), a == b, st2[0],
+                   'same key constructor as the lookup, with on_demand=False (shipped assemblers are not on-demand)')
+    else:
+        ctx.undecided('R13.3', seed.qual, 'seeding key', seed.node, 'store into the cache not recognised')
     hh = ctx.prog.func(VF + '.VForm.hash')
     ok = 'if self.__hash is None' in src(hh.node) and 'return self.__hash' in src(hh.node)
     ctx.decide('R13.3', hh.qual, 'hash computed once and cached', ok, hh.node)
